@@ -351,6 +351,28 @@ func c17CheckLimits(ctx *vfCtx, c c17LimCase) {
 		if vfCatch(ctx, "C17/limits", func() { ev, err = impl.NewEventFromUntrustedJSON(raw) }) {
 			return
 		}
+		// the bulk receipt path (state / auth events of /send_join and /state answers) keeps exactly the
+		// events the single-event path returns: accepted ones and "too large but persistable" ones
+		var bulk []PDU
+		if vfCatch(ctx, "C17/limits/bulk", func() {
+			bulk = EventJSONs{append(spec.RawJSON(nil), raw...)}.UntrustedEvents(RoomVersion(c.Version))
+		}) {
+			return
+		}
+		single, _ := c17Outcome(ev, err)
+		kept := 0
+		for _, b := range bulk {
+			if b != nil {
+				kept++
+			}
+		}
+		wantKept := 0
+		if single == "accepted" || single == "persistable" {
+			wantKept = 1
+		}
+		if kept != wantKept || len(bulk) != wantKept {
+			ctx.Fail("C17/limits/bulk-receipt-differs/"+single, "%s: NewEventFromUntrustedJSON says %s, EventJSONs.UntrustedEvents keeps %d of 1 (%d entries)", c.Version, single, kept, len(bulk))
+		}
 	} else {
 		if c.Size > 0 {
 			// measure with short fields of the same structure, then pad analytically
